@@ -85,6 +85,10 @@ func (p *Prog) genFunc(fi *FuncInfo) (g *FuncGen) {
 			g.entry.heap[k] = h
 		}
 	}
+	if fi.Spec != nil && fi.Spec.Trusted {
+		g.notes = append(g.notes, "TRUSTED contract (body not verified): "+fi.Key)
+		return g
+	}
 	fl := g.execBlock(fi.Body.List, st)
 	if fl.next != nil {
 		g.returns = append(g.returns, fl.next)
@@ -153,6 +157,13 @@ func (g *FuncGen) frameObligations(final *State) {
 			e = heapName(k) + "_0"
 		}
 		if final.heap[k] == e {
+			continue
+		}
+		if isGhostKey(k) {
+			if k == "$out" || k == "$rdpos" || k == "$hashdata" || k == "$screst" || k == "$sctok" {
+				continue // hidden state of library objects and console output are not part of any frame
+			}
+			g.oblige(final, "frame", k, nil, fmt.Sprintf("(= %s %s)", final.heap[k], e), g.F.Body.Rbrace, k+" unchanged")
 			continue
 		}
 		if strings.HasPrefix(k, "$g.") {
